@@ -1,4 +1,4 @@
-import RaftModel.RaftStep
+import RaftModel.NodeOps
 import RaftModel.Driver.Util
 
 /-
@@ -15,11 +15,7 @@ message queue) is part of the driver, not of the model of raft.rs.
 namespace RaftModel.Driver.RN
 open RaftModel
 
-structure RNState where
-  raft : Raft
-  /-- the application's configuration after the last applied configuration change -/
-  appCs : ConfState
-  deriving Inhabited
+abbrev RNState := Node.NState
 
 /-! ### token parsing -/
 
@@ -261,167 +257,70 @@ def errKind : RaftError → String
 
 /-! ### executing one call -/
 
-/-- outcome of a call: the result token(s) and the new state, or a panic -/
-abbrev Out := Res (String × RNState)
 
-def unitRes (st : RNState) (r : Res (Raft × Option RaftError)) : Out :=
-  match r with
-  | .ok (raft, none) => .ok ("ok", { st with raft := raft })
-  | .ok (raft, some e) => .ok (errKind e, { st with raft := raft })
-  | .err _ => .panic "unexpected-err"
-  | .panic s => .panic s
-
-def okRes (st : RNState) (r : Res Raft) : Out :=
-  match r with
-  | .ok raft => .ok ("ok", { st with raft := raft })
-  | .err _ => .panic "unexpected-err"
-  | .panic s => .panic s
-
-def withStore (r : Raft) (f : MemStorage → MemStorage) : Raft :=
-  { r with raftLog := { r.raftLog with store := f r.raftLog.store } }
-
-/-- `stabilize`: storage append of the unstable entries + `stable_entries`, then the hard state's
-term / vote are written to the storage -/
-def stabilize (st : RNState) : Out :=
-  let r := st.raft
-  let l := r.raftLog
-  let l1 : Res RaftLog :=
-    match l.unstable.entries.getLast? with
-    | none => .ok l
-    | some last =>
-      match l.store.append l.unstable.entries with
-      | .ok store => ({ l with store := store } : RaftLog).stableEntries last.index last.term
-      | .err e => .err e
-      | .panic s => .panic s
-  match l1 with
-  | .ok l =>
-    let hs := { l.store.hardState with term := r.term, vote := r.vote }
-    .ok ("ok", { st with raft := { r with raftLog := { l with store := l.store.setHardState hs } } })
-  | .err _ => .panic "unexpected-err"
-  | .panic s => .panic s
-
-/-- `persist_snap`: storage `apply_snapshot` of the pending snapshot, `stable_snap`,
-`on_persist_snap` -/
-def persistSnap (st : RNState) : Out :=
-  let r := st.raft
-  match r.raftLog.unstable.snapshot with
-  | none => .ok ("ok none", st)
-  | some s =>
-    match r.raftLog.store.applySnapshot s with
-    | .err _ => .ok ("err snapshot_out_of_date", st)
-    | .panic p => .panic p
-    | .ok store =>
-      match ({ r.raftLog with store := store } : RaftLog).stableSnap s.metadata.index with
-      | .err _ => .panic "unexpected-err"
-      | .panic p => .panic p
-      | .ok l =>
-        match ({ r with raftLog := l } : Raft).onPersistSnap s.metadata.index with
-        | .ok raft => .ok ("ok", { raft := raft, appCs := s.metadata.confState })
-        | .err _ => .panic "unexpected-err"
-        | .panic p => .panic p
-
-/-- `commit_apply k`: `reduce_uncommitted_size` of the entries being applied, `commit_apply(k)`,
-then the application records (applied index, configuration) in the storage when `k` is there -/
-def commitApply (st : RNState) (k : Nat) : Out :=
-  let r := st.raft
-  let l := r.raftLog
-  let r1 : Res Raft :=
-    if l.applied < k ∧ k ≤ l.committed then
-      match l.slice (l.applied + 1) (k + 1) none false with
-      | .ok ents => .ok (r.reduceUncommittedSize ents)
-      | .err _ => .ok r
-      | .panic s => .panic s
-    else .ok r
-  match r1.bind (fun r => r.commitApply k) with
-  | .ok r =>
-    let store := r.raftLog.store
-    let r := if store.firstIndex ≤ k ∧ k ≤ store.lastIndex then
-        withStore r (fun s => { s with hardState := { s.hardState with commit := k }, confState := st.appCs })
-      else r
-    .ok ("ok", { st with raft := r })
-  | .err _ => .panic "unexpected-err"
-  | .panic s => .panic s
-
-def run (st : RNState) (op : String) : P Out := do
-  let r := st.raft
+/-- one trace line -> the typed call (`Node.NodeOp`) -/
+def parseOp (op : String) : P Node.NodeOp := do
   match op with
-  | "tick" =>
-    pure (match RawNode.tick r with
-      | .ok (raft, b) => .ok (s!"ok {b01 b}", { st with raft := raft })
-      | .err _ => .panic "unexpected-err"
-      | .panic s => .panic s)
-  | "step" => do let m ← message; pure (unitRes st (RawNode.step r m))
-  | "rstep" => do let m ← message; pure (unitRes st (r.step m))
+  | "tick" => pure Node.NodeOp.tick
+  | "step" => do let m ← message; pure (Node.NodeOp.step m)
+  | "rstep" => do let m ← message; pure (Node.NodeOp.rstep m)
   | "propose" => do
     let c ← bytes
     let d ← bytes
-    pure (unitRes st (RawNode.propose r c d))
+    pure (Node.NodeOp.propose c d)
   | "propose_cc" => do
     let t ← nat
     let c ← bytes
     let d ← bytes
-    pure (unitRes st (RawNode.proposeConfChange r c t d))
-  | "read_index" => do let c ← bytes; pure (okRes st (RawNode.readIndex r c))
-  | "transfer_leader" => do let x ← nat; pure (okRes st (RawNode.transferLeader r x))
-  | "campaign" => pure (unitRes st (RawNode.campaign r))
-  | "ping" => pure (okRes st (RawNode.ping r))
-  | "request_snapshot" => pure (unitRes st (RawNode.requestSnapshot r))
-  | "report_unreachable" => do let x ← nat; pure (okRes st (RawNode.reportUnreachable r x))
+    pure (Node.NodeOp.proposeCc t c d)
+  | "read_index" => do let c ← bytes; pure (Node.NodeOp.readIndex c)
+  | "transfer_leader" => do let x ← nat; pure (Node.NodeOp.transferLeader x)
+  | "campaign" => pure Node.NodeOp.campaign
+  | "ping" => pure Node.NodeOp.ping
+  | "request_snapshot" => pure Node.NodeOp.requestSnapshot
+  | "report_unreachable" => do let x ← nat; pure (Node.NodeOp.reportUnreachable x)
   | "report_snapshot" => do
     let x ← nat
     let f ← bool
-    pure (okRes st (RawNode.reportSnapshot r x f))
-  | "apply_conf_change" => do
-    let cc ← ccV2
-    pure (match RawNode.applyConfChange r cc with
-      | .ok (raft, .ok cs) => .ok (s!"ok {fmtCs cs}", { raft := raft, appCs := cs })
-      | .ok (raft, .error _) => .ok ("err confchange", { st with raft := raft })
-      | .err _ => .panic "unexpected-err"
-      | .panic s => .panic s)
-  | "stabilize" => pure (stabilize st)
+    pure (Node.NodeOp.reportSnapshot x f)
+  | "apply_conf_change" => do let cc ← ccV2; pure (Node.NodeOp.applyConfChange cc)
+  | "stabilize" => pure Node.NodeOp.stabilize
   | "on_persist_entries" => do
     let i ← nat
     let t ← nat
-    pure (okRes st (r.onPersistEntries i t))
-  | "persist_snap" => pure (persistSnap st)
-  | "commit_apply" => do let k ← nat; pure (commitApply st k)
-  | "compact" => do
-    let k ← nat
-    pure (match r.raftLog.store.compact k with
-      | .ok store => .ok ("ok", { st with raft := withStore r (fun _ => store) })
-      | .err _ => .panic "unexpected-err"
-      | .panic s => .panic s)
-  | "drain" => pure (.ok ("ok", { st with raft := { r with msgs := [], readStates := [] } }))
-  | "trigger_snap" =>
-    pure (.ok ("ok", { st with raft := withStore r (fun s => s.triggerSnapUnavailableOn) }))
-  | "trigger_log" => do
-    let b ← bool
-    pure (.ok ("ok", { st with raft := withStore r (fun s => s.setTriggerLogUnavailable b) }))
-  | "set_priority" => do let p ← int; pure (.ok ("ok", { st with raft := r.setPriority p }))
-  | "set_batch_append" => do let b ← bool; pure (.ok ("ok", { st with raft := r.setBatchAppend b }))
-  | "skip_bcast_commit" => do let b ← bool; pure (.ok ("ok", { st with raft := r.setSkipBcastCommit b }))
-  | "set_check_quorum" => do let b ← bool; pure (.ok ("ok", { st with raft := r.setCheckQuorum b }))
+    pure (Node.NodeOp.onPersistEntries i t)
+  | "persist_snap" => pure Node.NodeOp.persistSnap
+  | "commit_apply" => do let k ← nat; pure (Node.NodeOp.commitApply k)
+  | "compact" => do let k ← nat; pure (Node.NodeOp.compact k)
+  | "drain" => pure Node.NodeOp.drain
+  | "trigger_snap" => pure Node.NodeOp.triggerSnap
+  | "trigger_log" => do let b ← bool; pure (Node.NodeOp.triggerLog b)
+  | "set_priority" => do let p ← int; pure (Node.NodeOp.setPriority p)
+  | "set_batch_append" => do let b ← bool; pure (Node.NodeOp.setBatchAppend b)
+  | "skip_bcast_commit" => do let b ← bool; pure (Node.NodeOp.skipBcastCommit b)
+  | "set_check_quorum" => do let b ← bool; pure (Node.NodeOp.setCheckQuorum b)
   | "adjust_max_inflight" => do
     let id ← nat
     let cap ← nat
-    pure (okRes st (r.adjustMaxInflightMsgs id cap))
-  | "maybe_free_inflight_buffers" => pure (.ok ("ok", { st with raft := r.maybeFreeInflightBuffers }))
-  | "enable_group_commit" => do let b ← bool; pure (okRes st (r.enableGroupCommit b))
-  | "assign_commit_groups" => do let v ← pairList; pure (okRes st (r.assignCommitGroups v))
-  | "clear_commit_group" => pure (.ok ("ok", { st with raft := r.clearCommitGroup }))
-  | "check_group_commit_consistent" =>
-    pure (match r.checkGroupCommitConsistent with
-      | .ok none => .ok ("ok none", st)
-      | .ok (some b) => .ok (s!"ok {b01 b}", st)
-      | .err _ => .panic "unexpected-err"
-      | .panic s => .panic s)
-  | "set_max_apply_unpersisted_log_limit" => do
-    let x ← nat
-    pure (.ok ("ok", { st with raft := r.setMaxApplyUnpersistedLogLimit x }))
-  | "set_max_committed_size_per_ready" => do
-    let x ← nat
-    pure (.ok ("ok", { st with raft := r.setMaxCommittedSizePerReady x }))
+    pure (Node.NodeOp.adjustMaxInflight id cap)
+  | "maybe_free_inflight_buffers" => pure Node.NodeOp.maybeFreeInflightBuffers
+  | "enable_group_commit" => do let b ← bool; pure (Node.NodeOp.enableGroupCommit b)
+  | "assign_commit_groups" => do let v ← pairList; pure (Node.NodeOp.assignCommitGroups v)
+  | "clear_commit_group" => pure Node.NodeOp.clearCommitGroup
+  | "check_group_commit_consistent" => pure Node.NodeOp.checkGroupCommitConsistent
+  | "set_max_apply_unpersisted_log_limit" => do let x ← nat; pure (Node.NodeOp.setMaxApplyUnpersistedLogLimit x)
+  | "set_max_committed_size_per_ready" => do let x ← nat; pure (Node.NodeOp.setMaxCommittedSizePerReady x)
   | _ => failure
+
+/-- the result token(s) of a call, as the harness prints them -/
+def fmtRes : Node.OpRes → String
+  | .ok => "ok"
+  | .okBool b => s!"ok {b01 b}"
+  | .okNone => "ok none"
+  | .okCs cs => s!"ok {fmtCs cs}"
+  | .err e => errKind e
+  | .errConfChange => "err confchange"
+  | .errSnapshotOutOfDate => "err snapshot_out_of_date"
 
 def parseRnd (t : String) : Option (Option Nat) :=
   if t == "-" then some none else t.toNat?.map some
@@ -443,10 +342,8 @@ def newNode : P (Option Nat → Option RNState × String) := do
     hardState := { term := ht, vote := hv, commit := hc }, confState := cs, entries := ents,
     snapshotMetadata := { index := si, term := stm, confState := cs } }
   pure (fun rnd =>
-    match RawNode.new c store rnd with
-    | .ok (.ok raft) =>
-      let st : RNState := { raft := raft, appCs := cs }
-      (some st, "ok | " ++ view st)
+    match Node.boot c store rnd with
+    | .ok (.ok st) => (some st, "ok | " ++ view st)
     | .ok (.error e) => (none, errKind e)
     | .err _ => (none, "panic")
     | .panic _ => (none, "panic"))
@@ -465,11 +362,12 @@ def handleRN (st : Option RNState) (cmd : List String) : Option RNState × Strin
       match parseRnd rnd with
       | none => (none, "bad-op")
       | some rnd =>
-        let st := { st with raft := { st.raft with nextRand := rnd } }
-        match (run st op).run rest with
-        | some (.ok (res, st'), []) => (some st', res ++ " | " ++ view st')
-        | some (.err _, []) => (none, "panic")
-        | some (.panic _, []) => (none, "panic")
+        match (parseOp op).run rest with
+        | some (nop, []) =>
+          match Node.call st rnd nop with
+          | .ok (res, st') => (some st', fmtRes res ++ " | " ++ view st')
+          | .err _ => (none, "panic")
+          | .panic _ => (none, "panic")
         | _ => (none, "bad-op")
   | _ => (none, "bad-op")
 
